@@ -150,6 +150,12 @@ class Inventory:
         root_fn = self.facts.fns.get(fn.j.get("root", "")) if fn.kind == "Closure" else None
         if root_fn is not None:
             tparams += [g for g in root_fn.j.get("generics", []) if re.fullmatch(r"[A-Z]\w*", g)]
+        # a parameter whose only capability is "convert me into text" (`N: Into<Cow<'static, str>>`, the named form of the
+        # `name: impl Into<Cow<..>>` arguments) carries no lazy user code the way an iterator or a closure does
+        preds = list(fn.j.get("predicates", [])) + (list(root_fn.j.get("predicates", [])) if root_fn is not None else [])
+        BENIGN = re.compile(r"core::marker::Sized$|core::convert::Into<alloc::borrow::Cow<'\w+, str>>$|core::convert::AsRef<str>$|'\w+$")
+        tparams = [g for g in tparams if any(pr.startswith(g + ": ") and not BENIGN.search(pr) for pr in preds)
+                   or not any(pr.startswith(g + ": ") for pr in preds)]
         if tparams:
             rx = re.compile(r"(?<![\w:])(%s)(?![\w:])" % "|".join(map(re.escape, set(tparams))))
             for x in sorted(live):
